@@ -545,8 +545,12 @@ def impl_cli(case):
         if case.get('cli_relative'):
             # the way a build script calls it: from the source directory, the main file by its bare name, the source
             # directory itself also named with -I, the other include directories relative to it
-            cwd = os.path.dirname(paths[0])
-            args = cli_args(case, isa, [os.path.basename(paths[0])], ['.'] + [os.path.relpath(d, cwd) for d in incdirs], out)
+            if case['cli_relative'] == 'parent':
+                # ... or from the project directory: source and include directories relative to it
+                args = cli_args(case, isa, [os.path.relpath(paths[0], td)], [os.path.relpath(d, td) for d in incdirs], out)
+            else:
+                cwd = os.path.dirname(paths[0])
+                args = cli_args(case, isa, [os.path.basename(paths[0])], ['.'] + [os.path.relpath(d, cwd) for d in incdirs], out)
         p = subprocess.run(args, capture_output=True, text=True, timeout=60, env=C.impl_env(), cwd=cwd)
         if p.returncode != 0:
             raise SystemExit(f'exit status {p.returncode}: {p.stderr[-200:]}')
@@ -585,6 +589,8 @@ def _recase(rng, word):
 def layout_stmt(rng, opts, st):
     """text of one statement under a random layout; None if the statement kind gets no decoration"""
     k = st[0]
+    if k == 'include' and opts.get('ws'):
+        return '#include' + _ws(rng, opts, 1) + f'"{st[2]}"'
     if k in ('instr', 'asm'):
         mn = st[1]
         ops = []
@@ -625,8 +631,9 @@ def render_layout(stmts, seed, file_index, opts=None):
             lines.append(_ws(rng, opts, 0) + '; ' + rng.choice(['note', 'ldi a, 5', 'x: .byte 1', '#define Q 1', 'comment; again', 'the 3.5" floppy', "it's", '"open', "'c"]))
         text = layout_stmt(rng, opts, st)
         indent = _ws(rng, opts, 0) if opts.get('ws') else ('    ' if k not in ('label', 'org', 'memzone', 'align') and not text.startswith('#') else '')
-        if k == 'label' and opts.get('label_same_line') and i + 1 < n and rng.random() < 0.5 \
-                and stmts[i + 1][0] in ('instr', 'asm', 'data', 'fill', 'zero', 'zerountil', 'str', 'org', 'memzone', 'align'):
+        # several labels on one line, a label in front of the statement it labels
+        while k == 'label' and opts.get('label_same_line') and i + 1 < n and rng.random() < 0.5 \
+                and stmts[i + 1][0] in ('label', 'instr', 'asm', 'data', 'fill', 'zero', 'zerountil', 'str', 'org', 'memzone', 'align'):
             nxt = layout_stmt(rng, opts, stmts[i + 1])
             text = text + _ws(rng, opts, 1 if not opts.get('ws') else rng.choice([0, 1, 2])) + nxt
             i += 1
